@@ -27,20 +27,41 @@ theorem count_correct (S : Strs) (fa : Nat → Nat → Nat) (first : Row) (b a :
 theorem count_distinct_correct (S : Strs) (fa : Nat → Nat → Nat) (first : Row) (b a : Bytes) (grp : List Row) :
     aggregate S fa first { binding := b, alias := a, op := .count, distinct := true } grp =
       .ok (.lit (.int (distinctCount S (grp.map fun r => (r.get b).getD .null)))) := by
-  simp [aggregate]
+  simp [aggregate, aggregateWith]
 
 /-- When the pattern has no solutions the result is empty, not a failure. -/
 theorem empty_group_by (S : Strs) (fa : Nat → Nat → Nat) (st : Stmt) : groupReduce S fa st [] = .ok [] :=
   group_empty S fa st
 
-/-- sum over int64 values is their arithmetic sum (when it fits; the accumulator wraps like int64). -/
-theorem sum_two_ints (S : Strs) (fa : Nat → Nat → Nat) (b a : Bytes) (x y : Int)
-    (hx : -4611686018427387904 ≤ x ∧ x < 4611686018427387904) (hy : -4611686018427387904 ≤ y ∧ y < 4611686018427387904) :
-    aggregate S fa [(b, .lit (.int x))] { binding := b, alias := a, op := .sum }
-      [[(b, .lit (.int x))], [(b, .lit (.int y))]] = .ok (.lit (.int (x + y))) := by
-  have h0 : toInt64 x = x := by unfold toInt64; omega
-  have h1 : toInt64 (x + y) = x + y := by unfold toInt64; omega
-  simp [aggregate, Row.get, List.foldlM, bind, Except.bind, pure, Except.pure, h0, h1]
+/-- sum over int64 values: whenever the engine answers, the answer is the arithmetic sum of the group's values —
+    for every group, no range restriction: a running sum that leaves int64 is an error (09a61fb; the pinned tree
+    wrapped: the sum of 9223372036854775807 and 1 was -9223372036854775808). -/
+theorem sum_is_arithmetic (S : Strs) (fa : Nat → Nat → Nat) (first : Row) (b a : Bytes) (grp : List Row) (x v : Int)
+    (hfirst : first.get b = some (.lit (.int x)))
+    (h : aggregate S fa first { binding := b, alias := a, op := .sum } grp = .ok (.lit (.int v))) :
+    ∃ xs, intCells (grp.map fun r => (r.get b).getD .null) = .ok xs ∧ v = xs.foldl (· + ·) 0 := by
+  simp only [aggregate, aggregateWith, hfirst] at h
+  cases hc : intCells (grp.map fun r => (r.get b).getD .null) with
+  | error e => simp [hc, bind, Except.bind, Except.map] at h
+  | ok xs =>
+    refine ⟨xs, rfl, ?_⟩
+    simp only [hc, bind, Except.bind] at h
+    cases hs : sumEngine xs with
+    | error e => simp [hs, Except.map] at h
+    | ok w =>
+      simp only [hs, Except.map, Except.ok.injEq, Cell.lit.injEq, Lit.int.injEq] at h
+      rw [← h]
+      exact sumEngine_ok xs w hs
+
+/-- … and the engine answers whenever no intermediate sum leaves int64. -/
+theorem sum_defined (xs : List Int) (h : ∀ pre, pre <+: xs → inInt64 (pre.foldl (· + ·) 0) = true) :
+    sumEngine xs = .ok (xs.foldl (· + ·) 0) := by
+  have := sumFrom_defined xs 0 (by simpa using h)
+  simpa [sumEngine] using this
+
+/-- Non-vacuity, at the points the old hypothesis excluded: 2^63-1 + 1 is an error; 2^62 + 2^62 - 1 is not. -/
+example : sumEngine [9223372036854775807, 1] = .error .sumOverflow ∧
+    sumEngine [4611686018427387904, 4611686018427387903] = .ok 9223372036854775807 := ⟨by rfl, by rfl⟩
 
 /-- GROUP BY means what it says: the keys the semantic hook (`groupByBindings`) collects are the bindings
     listed, in order; `GROUP`, `BY` and the commas change nothing. -/
@@ -59,5 +80,6 @@ end BW.Props.C11
 #print axioms BW.Props.C11.count_correct
 #print axioms BW.Props.C11.count_distinct_correct
 #print axioms BW.Props.C11.empty_group_by
-#print axioms BW.Props.C11.sum_two_ints
+#print axioms BW.Props.C11.sum_is_arithmetic
+#print axioms BW.Props.C11.sum_defined
 #print axioms BW.Props.C11.group_by_means_its_tokens
